@@ -73,7 +73,21 @@ type Case struct {
 	NoNoop  bool
 	Script  []smtpx.Decision
 	Msgs    []MsgSpec
+	// Prog selects the entry points of go-mail the case goes through ("" = "das"):
+	//   das    DialAndSendWithContext(ctx, msgs...)
+	//   dasn   DialAndSend(msgs...)
+	//   send   DialWithContext; Send(msgs...); Close            (the Client's own connection)
+	//   reset  DialWithContext; Send(first half); Reset; Send(second half); Close
+	//   two    DialToSMTPClientWithContext twice (two smtp.Clients of one Client value, alive at the same time);
+	//          SendWithSMTPClient(first half) on the one, (second half) on the other; CloseWithSMTPClient both.
+	//          Each connection has its own server running the same script.
+	Prog string
+	// Offset is the index of Msgs[0] within the batch of the whole case (sub-cases of "two")
+	Offset int
 }
+
+// Split is the number of messages of the first half (programs reset and two).
+func (c *Case) Split() int { return (len(c.Msgs) + 1) / 2 }
 
 func (s MsgSpec) String() string {
 	from := "!"
@@ -156,6 +170,9 @@ func (c *Case) Args() []string {
 	if c.NoNoop {
 		noop = "0"
 	}
+	if c.Prog != "" && c.Prog != "das" {
+		noop += "@" + c.Prog
+	}
 	sc := "-"
 	if len(c.Script) > 0 {
 		l := make([]string, len(c.Script))
@@ -198,7 +215,11 @@ func ParseCase(args []string) (*Case, error) {
 	if args[2] != "-" {
 		c.Notify = args[2]
 	}
-	c.NoNoop = args[3] == "0"
+	noopTok := strings.SplitN(args[3], "@", 2)
+	c.NoNoop = noopTok[0] == "0"
+	if len(noopTok) == 2 {
+		c.Prog = noopTok[1]
+	}
 	if args[4] != "-" {
 		for _, t := range strings.Split(args[4], ",") {
 			c.Script = append(c.Script, ParseDecision(t))
@@ -402,6 +423,10 @@ type Result struct {
 	Err        error
 	RetKind    string // nil | dial | conncheck | joined | close | other
 	Joined     int
+	// program reset: result of the second Send and of Reset ("" when not run)
+	RetKind2 string
+	Joined2  int
+	ResetOK  string // "1" Reset returned nil, "0" an error, "-" not called
 	Msgs       []MsgResult
 	Trace      []smtpx.Event
 	Commits    []smtpx.Commit
@@ -419,31 +444,42 @@ func hasCap(caps []string, c string) bool {
 	return false
 }
 
-// RunCase drives the real client through one case.
-func RunCase(c *Case) *Result {
-	res := &Result{}
-	for i, s := range c.Msgs {
-		content, rerr := Render(i, s)
-		if (s.Kind == 'w' || s.Kind == 'a') && rerr == nil {
-			// the specification says the producer fails: whether the rendering failed is not for the library's
-			// own WriteTo to decide (a WriteTo that swallows the producer's error must not fool the oracle)
-			rerr = fmt.Errorf("verif: WriteTo reported no error although the producer failed: %w", producerError(s.errText()))
-		}
-		res.Contents = append(res.Contents, content)
-		res.Failed = append(res.Failed, rerr != nil)
-		res.RenderErr = append(res.RenderErr, rerr)
-	}
-	srv := smtpx.NewServer(c.Caps, c.Script)
-	d := &smtpx.Dialer{Srv: srv}
-	policy := mail.NoTLS
-	serverTLS, clientTLS := tlsConfigs()
+// session is one connection of a case: its own scripted server and the tracked client end.
+type session struct {
+	srv  *smtpx.Server
+	conn *smtpx.Conn
+}
+
+// multiDialer gives every dial of the case a fresh server running the case's script.
+type multiDialer struct {
+	c        *Case
+	mu       sync.Mutex
+	sessions []*session
+}
+
+func (d *multiDialer) Dial(ctx context.Context, network, address string) (net.Conn, error) {
+	srv := smtpx.NewServer(d.c.Caps, append([]smtpx.Decision(nil), d.c.Script...))
+	serverTLS, _ := tlsConfigs()
 	srv.TLSConfig = serverTLS
-	if c.TLS == 'O' || c.TLS == 'M' {
+	if d.c.TLS == 'O' || d.c.TLS == 'M' {
+		srv.CapsAfterTLS = append([]string{}, d.c.CapsTLS...) // non-nil also when empty
+	}
+	cc, sc := smtpx.NewPair()
+	d.mu.Lock()
+	d.sessions = append(d.sessions, &session{srv: srv, conn: cc})
+	d.mu.Unlock()
+	go srv.Serve(sc)
+	return cc, nil
+}
+
+func newClient(c *Case, d *multiDialer) (*mail.Client, error) {
+	policy := mail.NoTLS
+	_, clientTLS := tlsConfigs()
+	if c.TLS == 'O' {
 		policy = mail.TLSOpportunistic
-		if c.TLS == 'M' {
-			policy = mail.TLSMandatory
-		}
-		srv.CapsAfterTLS = append([]string{}, c.CapsTLS...) // non-nil also when empty
+	}
+	if c.TLS == 'M' {
+		policy = mail.TLSMandatory
 	}
 	opts := []mail.Option{mail.WithTLSPolicy(policy), mail.WithTLSConfig(clientTLS), mail.WithDialContextFunc(d.Dial),
 		mail.WithTimeout(20 * time.Second), mail.WithHELO(HeloName)} // no script of this engine stalls; the timeout only has to survive a loaded machine
@@ -460,67 +496,71 @@ func RunCase(c *Case) *Result {
 	if c.NoNoop {
 		opts = append(opts, mail.WithoutNoop())
 	}
-	cl, err := mail.NewClient("verif.test", opts...)
-	if err != nil {
-		res.Err = err
-		res.RetKind = "newclient:" + err.Error()
-		return res
+	return mail.NewClient("verif.test", opts...)
+}
+
+// classifySend: the kind of the error a Send / SendWithSMTPClient returned
+func classifySend(err error) (string, int) {
+	if err == nil {
+		return "nil", 0
 	}
-	msgs := make([]*mail.Msg, len(c.Msgs))
-	for i, s := range c.Msgs {
-		msgs[i] = Build(i, s)
+	var se *mail.SendError
+	if j, ok := err.(interface{ Unwrap() []error }); ok {
+		return "joined", len(j.Unwrap())
 	}
-	func() {
-		defer func() {
-			if p := recover(); p != nil {
-				res.Panic = fmt.Sprint(p)
-				res.PanicWhere = "unknown"
-				st := string(debug.Stack())
-				best := -1
-				for _, fn := range []string{"isTempError", "errorCode", "enhancedStatusCode", "sendSingleMsg", "WriteTo"} {
-					if i := strings.Index(st, "go-mail."+fn+"("); i >= 0 && (best < 0 || i < best) {
-						best, res.PanicWhere = i, fn
-					} else if i := strings.Index(st, ")."+fn+"("); i >= 0 && (best < 0 || i < best) {
-						best, res.PanicWhere = i, fn
-					}
+	if errors.As(err, &se) && se.Reason == mail.ErrConnCheck {
+		return "conncheck", 0
+	}
+	return "other", 0
+}
+
+// guard runs f and converts a panic into res.Panic / res.PanicWhere
+func guard(res *Result, f func()) {
+	defer func() {
+		if p := recover(); p != nil {
+			res.Panic = fmt.Sprint(p)
+			res.PanicWhere = "unknown"
+			st := string(debug.Stack())
+			best := -1
+			for _, fn := range []string{"isTempError", "errorCode", "enhancedStatusCode", "sendSingleMsg", "WriteTo"} {
+				if i := strings.Index(st, "go-mail."+fn+"("); i >= 0 && (best < 0 || i < best) {
+					best, res.PanicWhere = i, fn
+				} else if i := strings.Index(st, ")."+fn+"("); i >= 0 && (best < 0 || i < best) {
+					best, res.PanicWhere = i, fn
 				}
-				err = fmt.Errorf("panic: %v", p)
 			}
-		}()
-		err = cl.DialAndSendWithContext(context.Background(), msgs...)
-	}()
-	res.Err = err
-	if d.Client != nil {
-		res.ClientShut, _ = d.Client.Closed()
-		// make the server see the end of the connection if the client left it open (C19's subject, not ours)
-		_ = d.Client.Close()
-		<-srv.Done
-		res.Ops = d.Client.Ops()
-	}
-	res.Trace, res.Commits = srv.Snapshot()
-	// classify the returned error
-	switch {
-	case res.Panic != "":
-		res.RetKind = "panic"
-	case err == nil:
-		res.RetKind = "nil"
-	case strings.HasPrefix(err.Error(), "dial failed"):
-		res.RetKind = "dial"
-	case strings.HasPrefix(err.Error(), "failed to close connection"):
-		res.RetKind = "close"
-	case strings.HasPrefix(err.Error(), "send failed"):
-		inner := errors.Unwrap(err)
-		var se *mail.SendError
-		if j, ok := inner.(interface{ Unwrap() []error }); ok {
-			res.RetKind = "joined"
-			res.Joined = len(j.Unwrap())
-		} else if errors.As(inner, &se) && se.Reason == mail.ErrConnCheck {
-			res.RetKind = "conncheck"
-		} else {
-			res.RetKind = "other"
 		}
-	default:
-		res.RetKind = "other"
+	}()
+	f()
+}
+
+// prerender fills the independent renderings of the case's messages
+func prerender(c *Case, res *Result) {
+	for i, s := range c.Msgs {
+		content, rerr := Render(i+c.Offset, s)
+		if (s.Kind == 'w' || s.Kind == 'a') && rerr == nil {
+			// the specification says the producer fails: whether the rendering failed is not for the library's
+			// own WriteTo to decide (a WriteTo that swallows the producer's error must not fool the oracle)
+			rerr = fmt.Errorf("verif: WriteTo reported no error although the producer failed: %w", producerError(s.errText()))
+		}
+		res.Contents = append(res.Contents, content)
+		res.Failed = append(res.Failed, rerr != nil)
+		res.RenderErr = append(res.RenderErr, rerr)
+	}
+}
+
+// collect gathers what the server saw and what the messages report
+func collect(res *Result, sess *session, msgs []*mail.Msg) {
+	if sess != nil {
+		res.ClientShut, _ = sess.conn.Closed()
+		// make the server see the end of the connection if the client left it open (C19's subject, not ours)
+		_ = sess.conn.Close()
+		<-sess.srv.Done
+		res.Ops = sess.conn.Ops()
+		res.Trace, res.Commits = sess.srv.Snapshot()
+	}
+	if res.Panic != "" {
+		res.RetKind = "panic"
 	}
 	if res.RetKind == "close" {
 		// "failed to close connection" although QUIT was answered 221: the error comes from closing the transport
@@ -556,7 +596,180 @@ func RunCase(c *Case) *Result {
 		}
 		res.Msgs = append(res.Msgs, mr)
 	}
+}
+
+// SubRun is one connection of a case with the sub-case (its share of the batch) it served.
+type SubRun struct {
+	Case *Case
+	Res  *Result
+}
+
+// RunProgram drives the real client through one case along the entry points its program names.
+func RunProgram(c *Case) []SubRun {
+	if c.Prog == "two" {
+		return runTwoClients(c)
+	}
+	return []SubRun{{c, RunCase(c)}}
+}
+
+// RunCase: the programs with one connection.
+func RunCase(c *Case) *Result {
+	res := &Result{ResetOK: "-"}
+	prerender(c, res)
+	d := &multiDialer{c: c}
+	cl, err := newClient(c, d)
+	if err != nil {
+		res.Err = err
+		res.RetKind = "newclient:" + err.Error()
+		return res
+	}
+	msgs := make([]*mail.Msg, len(c.Msgs))
+	for i, s := range c.Msgs {
+		msgs[i] = Build(i+c.Offset, s)
+	}
+	ctx := context.Background()
+	guard(res, func() {
+		switch c.Prog {
+		case "send", "reset":
+			if derr := cl.DialWithContext(ctx); derr != nil {
+				res.Err, res.RetKind = derr, "dial"
+				return
+			}
+			first, second := msgs, []*mail.Msg(nil)
+			if c.Prog == "reset" {
+				first, second = msgs[:c.Split()], msgs[c.Split():]
+			}
+			var sendErr error
+			func() {
+				defer func() {
+					if p := recover(); p != nil {
+						_ = cl.Close() // what DialAndSend's deferred close does while the panic unwinds
+						panic(p)
+					}
+				}()
+				sendErr = cl.Send(first...)
+				res.RetKind, res.Joined = classifySend(sendErr)
+				if c.Prog == "reset" {
+					res.ResetOK = "1"
+					if rerr := cl.Reset(); rerr != nil {
+						res.ResetOK = "0"
+					}
+					err2 := cl.Send(second...)
+					res.RetKind2, res.Joined2 = classifySend(err2)
+				}
+			}()
+			closeErr := cl.Close()
+			res.Err = sendErr
+			if c.Prog == "send" && sendErr == nil && closeErr != nil {
+				res.Err, res.RetKind = closeErr, "close"
+			}
+		default:
+			var derr error
+			if c.Prog == "dasn" {
+				derr = cl.DialAndSend(msgs...)
+			} else {
+				derr = cl.DialAndSendWithContext(ctx, msgs...)
+			}
+			res.Err = derr
+			switch {
+			case derr == nil:
+				res.RetKind = "nil"
+			case strings.HasPrefix(derr.Error(), "dial failed"):
+				res.RetKind = "dial"
+			case strings.HasPrefix(derr.Error(), "failed to close connection"):
+				res.RetKind = "close"
+			case strings.HasPrefix(derr.Error(), "send failed"):
+				res.RetKind, res.Joined = classifySend(errors.Unwrap(derr))
+			default:
+				res.RetKind = "other"
+			}
+		}
+	})
+	var sess *session
+	if len(d.sessions) > 0 {
+		sess = d.sessions[0]
+	}
+	collect(res, sess, msgs)
 	return res
+}
+
+// runTwoClients: two smtp.Clients obtained from one Client value and alive at the same time.
+func runTwoClients(c *Case) []SubRun {
+	k := c.Split()
+	c1, c2 := *c, *c
+	c1.Msgs, c1.Prog = c.Msgs[:k], "das"
+	c2.Msgs, c2.Prog, c2.Offset = c.Msgs[k:], "das", c.Offset+k
+	r1, r2 := &Result{ResetOK: "-"}, &Result{ResetOK: "-"}
+	prerender(&c1, r1)
+	prerender(&c2, r2)
+	d := &multiDialer{c: c}
+	cl, err := newClient(c, d)
+	if err != nil {
+		r1.RetKind, r2.RetKind = "newclient:"+err.Error(), "newclient:"+err.Error()
+		return []SubRun{{&c1, r1}, {&c2, r2}}
+	}
+	build := func(sc *Case) []*mail.Msg {
+		l := make([]*mail.Msg, len(sc.Msgs))
+		for i, s := range sc.Msgs {
+			l[i] = Build(i+sc.Offset, s)
+		}
+		return l
+	}
+	m1, m2 := build(&c1), build(&c2)
+	ctx := context.Background()
+	var sessA, sessB *session
+	a, errA := cl.DialToSMTPClientWithContext(ctx)
+	if len(d.sessions) > 0 {
+		sessA = d.sessions[0]
+	}
+	n := len(d.sessions)
+	b, errB := cl.DialToSMTPClientWithContext(ctx)
+	if len(d.sessions) > n {
+		sessB = d.sessions[n]
+	}
+	if errA != nil {
+		r1.Err, r1.RetKind = errA, "dial"
+	} else {
+		guard(r1, func() {
+			defer func() {
+				if p := recover(); p != nil {
+					_ = cl.CloseWithSMTPClient(a)
+					panic(p)
+				}
+			}()
+			e := cl.SendWithSMTPClient(a, m1...)
+			r1.Err = e
+			r1.RetKind, r1.Joined = classifySend(e)
+		})
+	}
+	if errB != nil {
+		r2.Err, r2.RetKind = errB, "dial"
+	} else {
+		guard(r2, func() {
+			defer func() {
+				if p := recover(); p != nil {
+					_ = cl.CloseWithSMTPClient(b)
+					panic(p)
+				}
+			}()
+			e := cl.SendWithSMTPClient(b, m2...)
+			r2.Err = e
+			r2.RetKind, r2.Joined = classifySend(e)
+		})
+	}
+	if errA == nil && r1.Panic == "" {
+		if e := cl.CloseWithSMTPClient(a); e != nil && r1.RetKind == "nil" {
+			r1.RetKind = "close"
+		}
+	}
+	if errB == nil && r2.Panic == "" {
+		if e := cl.CloseWithSMTPClient(b); e != nil && r2.RetKind == "nil" {
+			r2.RetKind = "close"
+		}
+	}
+	collect(r1, sessA, m1)
+	collect(r2, sessB, m2)
+	return []SubRun{{&c1, r1}, {&c2, r2}}
 }
 
 // Derived renders the derived field of the case line: per message "<content hex>/0" or
@@ -662,6 +875,13 @@ func (r *Result) ObsC20() string {
 	ms := "-"
 	if len(l) > 0 {
 		ms = strings.Join(l, ";")
+	}
+	if r.RetKind2 != "" || r.ResetOK != "-" {
+		k2 := r.RetKind2
+		if k2 == "" {
+			k2 = "-"
+		}
+		return fmt.Sprintf("R=%s+%s+r%s J=%d+%d M=%s", r.RetKind, k2, r.ResetOK, r.Joined, r.Joined2, ms)
 	}
 	return fmt.Sprintf("R=%s J=%d M=%s", r.RetKind, r.Joined, ms)
 }
